@@ -240,7 +240,13 @@ class Builder:
             h.set_hypergraph_metadata(dc(c["meta"]))
             self.hg_known = dc(c["meta"])
             return
-        H.apply_real(ad, h, c)
+        if (op == "remove_node" and getattr(ad, "has_remove_nodes", False)
+                and len(self.trace) % 2 == 0):
+            # every other node removal goes through the bulk call remove_nodes([n])
+            H.apply_real(ad, h, {"op": "remove_nodes", "ns": [c["n"]], "keep": c["keep"]})
+            self.trace[-1] = dict(c, via="remove_nodes")
+        else:
+            H.apply_real(ad, h, c)
         if op == "add_node":
             self._m_add_node(c["n"], c["meta"])
         elif op == "add_edge":
